@@ -499,3 +499,233 @@ func (ru *running) concurrentRunning(thorough bool) {
 	raceFaults = saved
 	restore()
 }
+
+// ---- validated lists: ONE illegal item at every position relative to the items before it ----
+// (a validation loop that stops early - e.g. at the label that matches the isolation level, or at
+// the first registered scheduler - lets everything standing after that item through)
+
+var illegalLabelForms = []struct{ name, v string }{
+	{"comma-inside", "rack,host"}, {"leading-space", " rack"}, {"trailing-space", "rack "}, {"inner-space", "ra ck"},
+	{"empty", ""}, {"leading-slash", "/rack"}, {"trailing-dash", "rack-"}, {"non-ascii", "räck"}, {"inner-dollar", "ra$ck"},
+}
+
+var legalLabelPool = []string{"zone", "rack", "host", "dc"}
+
+type replCase struct {
+	labels []string
+	iso    string
+	class  string
+	out    bool
+}
+
+// replGrid: label lists of length 1..maxLen x isolation level {none, each index, not in the list}
+// x {no illegal label, one illegal form at each index}.
+func replGrid(maxLen int, forms []struct{ name, v string }) []replCase {
+	var out []replCase
+	for n := 1; n <= maxLen; n++ {
+		for isoAt := -2; isoAt < n; isoAt++ { // -2 none, -1 not in the list
+			for illAt := -1; illAt < n; illAt++ {
+				fs := forms
+				if illAt < 0 {
+					fs = forms[:1] // one control without an illegal label
+				}
+				for _, f := range fs {
+					labels := append([]string(nil), legalLabelPool[:n]...)
+					ill := "none"
+					if illAt >= 0 {
+						labels[illAt] = f.v
+						ill = fmt.Sprintf("%s@%d", f.name, illAt)
+					}
+					c := replCase{labels: labels, out: illAt >= 0}
+					isoName := "none"
+					switch {
+					case isoAt == -1:
+						c.iso, isoName, c.out = "not-a-label", "not-in-list", true
+					case isoAt >= 0:
+						c.iso, isoName = labels[isoAt], fmt.Sprintf("@%d", isoAt)
+						if c.iso == "" {
+							isoName += "(empty)" // an empty isolation level means "none"
+						}
+					}
+					c.class = fmt.Sprintf("labels=%d,isolation=%s,illegal=%s", n, isoName, ill)
+					out = append(out, c)
+				}
+			}
+		}
+	}
+	return out
+}
+
+// once executes a request unfaulted from the given state and judges it.
+func (e *env) once(st *step, restore func()) {
+	e.caseNo++
+	restore()
+	e.tainted = false
+	res := e.exec(st, kvx.NoFault)
+	e.judge(st, res)
+}
+
+func (e *env) listGrids() {
+	r := e.r
+	e.phase = "list-grid"
+	if !e.consistent() {
+		r.Inconclusive("list grids: stored and served configuration could not be made equal")
+		return
+	}
+	base := e.capture()
+	restore := func() { e.restore(base) }
+	// location labels / isolation level
+	for _, c := range replGrid(4, illegalLabelForms) {
+		cfg := e.s.GetReplicationConfig()
+		cfg.LocationLabels, cfg.IsolationLevel = c.labels, c.iso
+		cl := "location-labels=in:" + c.class
+		if c.out {
+			cl = "location-labels=out:" + c.class
+		}
+		e.once(e.directStep((&call{Setter: "SetReplicationConfig", repl: cfg, Muts: []string{cl}}).finish()), restore)
+		r.Count("list_grid_replication", 1)
+	}
+	// schedulers: one unregistered type at every position among registered ones
+	regs := []string{"balance-region", "balance-leader", "hot-region", "label"}
+	for n := 1; n <= 4; n++ {
+		for at := -1; at < n; at++ {
+			bad := badSchedulerTypes
+			if at < 0 {
+				bad = bad[:1]
+			}
+			for _, b := range bad {
+				var l config.SchedulerConfigs
+				for i := 0; i < n; i++ {
+					t := regs[i]
+					if i == at {
+						t = b
+					}
+					l = append(l, config.SchedulerConfig{Type: t})
+				}
+				cl := fmt.Sprintf("schedulers=in:%d-registered", n)
+				if at >= 0 {
+					cl = fmt.Sprintf("schedulers=out:unregistered-type(%q)@%d/%d", b, at, n)
+				}
+				e.once(e.directStep(e.schedCall(cl, func(c *config.ScheduleConfig) { c.Schedulers = l })), restore)
+				r.Count("list_grid_schedulers", 1)
+			}
+		}
+	}
+	// label-property lists (nothing is validated there: whatever is accepted must be reloaded as it is)
+	odd := []config.StoreLabel{{Key: "zone,rack", Value: "z1"}, {Key: "zone", Value: "z1,z2"}, {Key: "", Value: ""}, {Key: "zöne", Value: " z 1 "}}
+	for n := 1; n <= 3; n++ {
+		for at := 0; at < n; at++ {
+			for oi, o := range odd {
+				var l []config.StoreLabel
+				for i := 0; i < n; i++ {
+					if i == at {
+						l = append(l, o)
+					} else {
+						l = append(l, config.StoreLabel{Key: legalLabelPool[i], Value: fmt.Sprintf("v%d", i)})
+					}
+				}
+				c := &call{Setter: "SetLabelPropertyConfig", lp: config.LabelPropertyConfig{"reject-leader": l}, Muts: []string{fmt.Sprintf("label-property=edge:odd-item-%d@%d/%d", oi, at, n)}}
+				e.once(e.directStep(c.finish()), restore)
+				r.Count("list_grid_label_property", 1)
+			}
+		}
+	}
+	// store-limit maps (not validated by the setter either)
+	oddLimits := []struct {
+		id uint64
+		l  config.StoreLimitConfig
+	}{{0, config.StoreLimitConfig{AddPeer: 1, RemovePeer: 1}}, {^uint64(0), config.StoreLimitConfig{AddPeer: 2, RemovePeer: 3}},
+		{7, config.StoreLimitConfig{AddPeer: 0, RemovePeer: 0}}, {8, config.StoreLimitConfig{AddPeer: -1, RemovePeer: 1e308}}}
+	for n := 0; n <= 2; n++ {
+		for oi, o := range oddLimits {
+			m := map[uint64]config.StoreLimitConfig{}
+			for i := 1; i <= n; i++ {
+				m[uint64(i)] = config.StoreLimitConfig{AddPeer: 15, RemovePeer: 15}
+			}
+			m[o.id] = o.l
+			e.once(e.directStep(e.schedCall(fmt.Sprintf("store-limit=edge:odd-entry-%d+%d-plain", oi, n), func(c *config.ScheduleConfig) { c.StoreLimit = m })), restore)
+			r.Count("list_grid_store_limit", 1)
+		}
+	}
+	restore()
+}
+
+// httpListGrids: the same idea through the API, where the list is expressible (labels travel
+// comma-joined, so a comma inside a label cannot be said; an empty item can).
+func (ru *running) httpListGrids() {
+	r := ru.r
+	ru.env.phase = "list-grid-http"
+	ru.kv.ResetFaults()
+	if !ru.consistent() {
+		r.Inconclusive("http list grids: stored and served configuration could not be made equal")
+		return
+	}
+	ru.syncDefaultRule()
+	base := ru.captureServed()
+	stored := ru.stored()
+	restore := func() {
+		ru.kv.ResetFaults()
+		ru.restoreServed(base)
+		ru.kv.Inner.Save(configKey, stored)
+		ru.syncDefaultRule()
+	}
+	var forms []struct{ name, v string }
+	for _, f := range illegalLabelForms {
+		if !strings.Contains(f.v, ",") {
+			forms = append(forms, f)
+		}
+	}
+	run := func(p *post) bool {
+		if !ru.ready() && !ru.waitLeader(true) {
+			r.Inconclusive("http list grids: leader lost")
+			return false
+		}
+		ru.once(ru.httpStep(p), restore)
+		return true
+	}
+	for _, c := range replGrid(3, forms) {
+		if len(c.labels) < 2 {
+			continue
+		}
+		joined := strings.Join(c.labels, ",")
+		cl := "in:" + c.class
+		if c.out {
+			cl = "out:" + c.class
+		}
+		// one request carrying both items
+		if !run(&post{Path: "/config/replicate", Body: map[string]interface{}{"location-labels": joined, "isolation-level": c.iso}, Class: "location-labels+isolation-level=" + cl, site: "POST /config/replicate", out: c.out}) {
+			return
+		}
+		r.Count("list_grid_http_replicate", 1)
+		// the isolation level is already served, the labels arrive alone through POST /config
+		if c.iso != "" && c.iso != "not-a-label" && legalLabelKey(c.iso) {
+			setup := func() {
+				restore()
+				rc := ru.s.GetReplicationConfig()
+				rc.LocationLabels, rc.IsolationLevel = []string{c.iso}, c.iso
+				if ru.s.SetReplicationConfig(*rc) == nil {
+					ru.syncDefaultRule()
+				}
+			}
+			ru.once(ru.httpStep(&post{Path: "/config", Body: map[string]interface{}{"location-labels": joined}, Class: "location-labels=" + cl + ",isolation-level-served", site: "POST /config", out: c.out}), setup)
+			r.Count("list_grid_http_config", 1)
+		}
+	}
+	regs := []string{"balance-region", "balance-leader", "hot-region"}
+	for at := 0; at < 3; at++ {
+		for _, b := range badSchedulerTypes {
+			var l config.SchedulerConfigs
+			for i, t := range regs {
+				if i == at {
+					t = b
+				}
+				l = append(l, config.SchedulerConfig{Type: t})
+			}
+			if !run(&post{Path: "/config/schedule", Body: map[string]interface{}{"schedulers-v2": jsonOf(l)}, Class: fmt.Sprintf("schedulers-v2=out:unregistered-type(%q)@%d/3", b, at), site: "POST /config/schedule", out: true}) {
+				return
+			}
+			r.Count("list_grid_http_schedulers", 1)
+		}
+	}
+	restore()
+}
